@@ -55,6 +55,14 @@ func runAcc(c accCase) harness.Result {
 	if err != nil {
 		return harness.Fail("NewRegisters refused a payload of %d registers at %d: %v", count, c.Start, err)
 	}
+	// a second view over the same address window with other contents (another device with the same register map, or the previous
+	// poll), created after the first and read alternately with it: what is read from one view never comes from the other
+	other := c
+	other.Payload = make([]byte, len(c.Payload))
+	for i, b := range c.Payload {
+		other.Payload[i] = ^b
+	}
+	regsB, _, _ := view(other)
 	def := c.Default
 	if def == 0 {
 		def = spec.LibraryDefault
@@ -74,6 +82,9 @@ func runAcc(c accCase) harness.Result {
 		}
 		for i := range c.BeforeFields {
 			_, _ = c.BeforeFields[i].ExtractFrom(regs)
+		}
+		if regsB != nil {
+			_, _ = cat.CallAccess(regsB, c.Access)
 		}
 		got, gerr = cat.CallAccess(regs, c.Access)
 	}()
